@@ -257,7 +257,7 @@ def check_bigfile(ctx, c):
     case = dict(c, size=len(data))
     # expected: what an independent scan of the scanned part yields
     scanned = data if whole else data[:4096]
-    ref = ref_filter(scanned.decode("utf-8", "replace").replace("\r\n", "\n"))
+    ref = ref_filter(scanned.decode("utf-8", "replace").replace("\r\n", "\n").replace("\r", "\n"))
     exp_lic = {v for v in vis_lic if f"SPDX-License-Identifier: {v}\n" in ref or ref.endswith(f"SPDX-License-Identifier: {v}")}
     exp_cop = {v for v in vis_cop if v + "\n" in ref or ref.endswith(v)}
     if "hidden" in ref.lower():
